@@ -89,10 +89,10 @@ pub fn world(seed: u64, size: usize) -> World {
         let (u, s, t) = gen::cluster_url(&mut r, &rules);
         queries.push(Q::Net { url: u, src: s, ty: t });
     }
-    // very long URLs (a payload in the query) with multi-byte characters around the 16 KiB and 64 KiB marks, at both byte
+    // very long URLs (a payload in the query) with multi-byte characters around the 16 KiB mark, at both byte
     // parities, counted from the start of the URL and from the end of the host: whatever bounds, windows or chunks the text
     // handed to a compiled regex must cut at character boundaries, in every thread alike
-    for (k, mark) in [(0usize, 16384usize), (1, 16384), (0, 65536), (1, 65536)] {
+    for (k, mark) in [(0usize, 16384usize), (1, 16384)] {
         let head = "https://ads0.example/x/banner/r0/twin0/q/b.gif?d=".to_string();
         let fill = mark - 100 - head.len() + k;
         let url = format!("{}{}{}&end=1", head, "a".repeat(fill), "\u{e9}".repeat(120));
@@ -245,8 +245,8 @@ pub fn run(seed: u64, n: usize, out: &mut Out, tier: &str) {
     let threads = 8usize;
     // every thread first walks all queries `reps` times, then hammers the (cheap) cosmetic queries
     // `cosm_reps` times: queries whose answers differ (generichide on / off) interleave across threads
-    let reps = if tier == "quick" { 3 } else { 40 };
-    let cosm_reps = if tier == "quick" { 150 } else { 2000 };
+    let reps = if tier == "quick" { 3 } else { 10 };
+    let cosm_reps = if tier == "quick" { 150 } else { 600 };
     let mut cross = String::new();
     for s in 0..worlds(n) {
         let wseed = seed.wrapping_add(s as u64);
